@@ -166,7 +166,7 @@ Section DNSSL.
     if Nat.leb (len p) 16 then Ok tt
     else (b <- slfrom p 16 ;; new_parse_options fuel b)%res.
   Definition rs_options (fuel : nat) (p : slice) : res unit :=
-    if Nat.leb (len p) 24 then Ok tt
-    else (b <- slfrom p 24 ;; new_parse_options fuel b)%res.
+    if Nat.leb (len p) 8 then Ok tt       (* as repaired by 24e521d: options follow byte 8 *)
+    else (b <- slfrom p 8 ;; new_parse_options fuel b)%res.
 End DNSSL.
 
